@@ -32,7 +32,7 @@ def _place_key(pl):
     return (l, idx), rest
 
 
-def eval_match(body, start, slots, assume, discr_of, result_local=0, max_steps=400, stop_at_call=False):
+def eval_match(body, start, slots, assume, discr_of, result_local=0, max_steps=400, stop_at_call=False, trace=None):
     """slots: {(local, tuple idx|None): name}; assume: {name: 'T'|'F'|'N'|'O'}; discr_of: {'Bool': d, 'Null': d, 'other': d}"""
     env = {}  # local -> ('discr', int) | ('bool', bool)
 
@@ -93,6 +93,8 @@ def eval_match(body, start, slots, assume, discr_of, result_local=0, max_steps=4
     bb = start
     for _ in range(max_steps):
         blk = body.blocks[bb]
+        if trace is not None:
+            trace.append(bb)
         for st in blk["s"]:
             if st[0] != "a":
                 continue
